@@ -16,6 +16,7 @@ import (
 //	swamp.applyPatchMeta                    ClearExpiredAt → zero time, else SetExpiredAt when not zero
 //	swamp.CloneAndDeleteMatchingTreasures   build, GetBeacon, ShiftMatching, deleteHandler each
 //	beacon.ShiftMatching                    walks treasuresByOrder in order, first howMany matches
+//
 // c07StripHooks removes every `if verifhook.Enabled { … }` block (balanced braces) from rendered source.
 func c07StripHooks(s string) string {
 	const open = "if verifhook.Enabled {"
@@ -143,5 +144,19 @@ func c07Claim(fs *Facts) {
 			"bcn := s.GetBeacon(beaconType, order)",
 			"shiftedTreasures, capReached := bcn.ShiftMatching(int(howMany), predicate, capPredicate, int(capMax))")
 	}
-	fs.Tri("claimPathsStandard", TriOf(std && shape), where)
+	// deleteHandlerIf: a record that is not wanted any more goes back into the indexes the selection pass took it out of
+	if fsw, err := Load(c07Swamp); err == nil {
+		if dh := fsw.Func("swamp", "deleteHandlerIf"); dh != nil {
+			body := c07Body(fsw, "swamp", "deleteHandlerIf")
+			switch {
+			case strings.Contains(body, "if stillWanted != nil && !stillWanted(treasureObj) { s.addTreasureToBeacons(treasureObj) return nil, nil }"):
+				fs.Tri("claimLoserRefiled", Yes, c07At(c07Swamp, fsw, dh))
+			case strings.Contains(body, "if stillWanted != nil && !stillWanted(treasureObj) { return nil, nil }"):
+				fs.Tri("claimLoserRefiled", No, c07At(c07Swamp, fsw, dh))
+			}
+		}
+	}
+	if std && shape { // (a shape that is not found is "unknown", never "no")
+		fs.Tri("claimPathsStandard", Yes, where)
+	}
 }
